@@ -272,10 +272,18 @@ func VerifC20_RollingAverageEncode() {
 	case 3:
 		// days: whole hours only (the sub-hour remainder is outside this bound)
 		days := uint32(vPick(63))
+		if vParam("allq", 0) == 0 && vBool() {
+			days = 64 // "up to 64 days": the 6-bit field saturates at 63
+		} else if vParam("allq", 0) == 1 && vBool() {
+			days = uint32(64 + vChoice(3))
+		}
 		h := uint32(vByte())
 		vAssume(h < 24)
 		k = days*86400 + h*3600
 		want = byte(days) | 0xc0
+		if days > 63 {
+			want = 0xff
+		}
 	}
 	got := rollingAvgPeriodByte(time.Duration(k) * time.Second)
 	vAssert(got == want, "c20-duration-to-period-byte-truncates-to-the-unit")
